@@ -58,6 +58,60 @@ def miri_extra(prop, argv_seeds, miri_seeds):
     return run
 
 
+def rtimer_extra(prop):
+    """Both tiers: the real-clock monitor (crate rtimer/, rxrust with its DEFAULT features, i.e. the
+    built-in timer the virtual-clock harness never compiles). Lower bounds and logical oracles only."""
+    def run(tier, seed, repo):
+        import hashlib as _hl, shutil as _sh
+        root = _os.path.dirname(_os.path.abspath(__file__))
+        rdir = _os.path.join(root, "rtimer")
+        out = {"counters": {}, "violations": [], "inconclusive": [], "samples": []}
+        env = dict(_os.environ, CARGO_NET_OFFLINE="true")
+        scratch = None
+        if _os.path.abspath(repo) != "/repo":
+            tag = _hl.sha1(_os.path.abspath(repo).encode()).hexdigest()[:10]
+            scratch = _os.path.join(root, ".scratch", "rtimer-" + tag)
+            _os.makedirs(_os.path.join(scratch, ".cargo"), exist_ok=True)
+            man = open(_os.path.join(rdir, "Cargo.toml")).read().replace('path = "/repo"', 'path = "%s"' % _os.path.abspath(repo))
+            open(_os.path.join(scratch, "Cargo.toml"), "w").write(man)
+            _sh.copy(_os.path.join(rdir, "Cargo.lock"), _os.path.join(scratch, "Cargo.lock"))
+            _sh.copy(_os.path.join(rdir, ".cargo", "config.toml"), _os.path.join(scratch, ".cargo", "config.toml"))
+            link = _os.path.join(scratch, "src")
+            if _os.path.islink(link):
+                _os.unlink(link)
+            _os.symlink(_os.path.join(rdir, "src"), link)
+            rdir = scratch
+        try:
+            b = _sp.run(["cargo", "build", "--profile", "verif", "--offline"], cwd=rdir, env=env, stdout=_sp.PIPE, stderr=_sp.STDOUT, text=True, timeout=1200)
+            if b.returncode != 0:
+                out["inconclusive"].append("real-timer monitor failed to build: %s" % b.stdout[-400:].replace("\n", " | "))
+                return out
+            p = _sp.run([_os.path.join(rdir, "target", "verif", "rxrtimer"), "--prop", prop, "--tier", tier, "--seed", str(seed)],
+                        stdout=_sp.PIPE, stderr=_sp.PIPE, text=True, timeout=900)
+        except _sp.TimeoutExpired:
+            out["inconclusive"].append("real-timer monitor: wall-clock watchdog fired")
+            return out
+        finally:
+            if scratch:
+                pass
+        lines = [l for l in p.stdout.splitlines() if l.startswith("RT-RESULT ")]
+        if not lines:
+            out["inconclusive"].append("real-timer monitor produced no result (exit %s): %s" % (p.returncode, p.stderr[-300:].replace("\n", " | ")))
+            return out
+        r = _json.loads(lines[-1][len("RT-RESULT "):])
+        for k, v in r["counters"].items():
+            out["counters"]["real_clock_" + k if not k.startswith("real_") else k] = v
+        for v in r["violations"]:
+            out["violations"].append(dict(v, shard=0, nshards=1))
+        out["samples"].append({"real_timer_monitor": r.get("sample")})
+        if r["counters"].get("lower_bounds_checked", 0) == 0:
+            out["inconclusive"].append("real-timer monitor checked no lower bound")
+        if scratch:
+            _sh.rmtree(scratch, ignore_errors=True)
+        return out
+    return run
+
+
 META["C03"] = {
     "title": "Sources and single-input operators compute their documented sequence",
     "rule": "cases = (operator chain AST, input script). Enumerated: every single-input operator x every parameter in 0..n+1 / predicate family x every script over {0,1,2} up to length n (quick 3, thorough 6) x terminal {none,complete,error} x sources {Subject, create (sync and stashed-handle), from_iter}; every basic source alone and under every operator; plus seeded random chains of depth 2..5 with post-terminal events. Long scripts (counter long_script_cases): chains of 1-2 operators with parameters up to 12 over scripts of up to 40 items from an alphabet of 12 values (operators that remember what they have seen or keep the last n items). One long chain in ten is pairwise + distinct / distinct_until_changed: the harness item type hashes a pair by its first component only (Hash coarser than Eq, which is legal), so comparing hashes instead of values is observable. Large parameters (counter large_parameter_cases): take / skip / take_last / skip_last / element_at / buffer_with_count with counts 1024..5000 over from_iter of 1024, 1025 and 3000 items. A hot source is shared: in half of the hot-source cases (a function of the script; counter hot_cases_behind_a_closed_pipeline_on_the_same_source) another pipeline was registered on the same subject first and is already over - unsubscribed at once, or a take(1) that finishes by itself - when the events arrive; the pipeline under test is owed the same sequence. A case is non-trivial when the reference model's expected output contains an item, or terminates although the input did not, or ends with an error; distinct = distinct hash of (AST, script).",
@@ -143,17 +197,17 @@ META["C06"] = {
 
 META["C08"] = {
     "title": "Time and async sources emit exactly what and when they promise",
-    "rule": "cases = (source, take count, local|threads scheduler form, FIFO|any task order, due-stepping|late schedule, schedule seed). Sources: interval / interval_at with periods {1,7,100} ms and instants {past, now, +10ms, +250ms, +1h}; timer / timer_at with delays {0,1,7,100} ms and the same instants; from_future(_result) / from_stream(_result) over scripted futures/streams (ready at once, pending k polls self-woken or woken by the explorer, error at position i, empty). Due-stepping runs fire one due timer at a time and run tasks to quiescence (exact 'one period' oracle); late runs leave tasks waiting and jump the clock ('never earlier' oracle). A third of the timed cases (counter runs_with_idle_gap_before_first_poll) move the clock by {period/2, period-1ns, period, 3 periods+1ns, 3 ms} between subscribe() and the executor's first run, then due-step: the first interval / interval_at value is still due at max(subscription + period | the instant, first run). One stream case in six is long (20..100 items, all ready at once or with a rare pending; counter long_stream_runs). A third of the timer cases use sub-millisecond delays (400, 900, 999, 1500 us). Non-trivial: >= 2 ticks observed, or the future/stream was pending at least once; distinct = hash(case). A share of the cases (counter runs_on_the_real_LocalPool) is built with the library's own `impl Scheduler for futures::executor::LocalSpawner` and run on the real futures LocalPool (run_until_stalled / try_run_one) instead of the harness executor. Thread part (scenario interval+workers): interval(1ms).take(k) with 1-2 worker threads running the periodic task and firing the virtual timers, optionally an unsubscribing thread (random/PCT, preemption-bounded systematic, free-running): values 0,1,2,... in order each once; without an unsubscribe exactly k values then completion once the workers ran until idle.",
+    "rule": "cases = (source, take count, local|threads scheduler form, FIFO|any task order, due-stepping|late schedule, schedule seed). Sources: interval / interval_at with periods {1,7,100} ms and instants {past, now, +10ms, +250ms, +1h}; timer / timer_at with delays {0,1,7,100} ms and the same instants; from_future(_result) / from_stream(_result) over scripted futures/streams (ready at once, pending k polls self-woken or woken by the explorer, error at position i, empty). Due-stepping runs fire one due timer at a time and run tasks to quiescence (exact 'one period' oracle); late runs leave tasks waiting and jump the clock ('never earlier' oracle). A third of the timed cases (counter runs_with_idle_gap_before_first_poll) move the clock by {period/2, period-1ns, period, 3 periods+1ns, 3 ms} between subscribe() and the executor's first run, then due-step: the first interval / interval_at value is still due at max(subscription + period | the instant, first run). One stream case in six is long (20..100 items, all ready at once or with a rare pending; counter long_stream_runs). A third of the timer cases use sub-millisecond delays (400, 900, 999, 1500 us). Non-trivial: >= 2 ticks observed, or the future/stream was pending at least once; distinct = hash(case). A share of the cases (counter runs_on_the_real_LocalPool) is built with the library's own `impl Scheduler for futures::executor::LocalSpawner` and run on the real futures LocalPool (run_until_stalled / try_run_one) instead of the harness executor. Thread part (scenario interval+workers): interval(1ms).take(k) with 1-2 worker threads running the periodic task and firing the virtual timers, optionally an unsubscribing thread (random/PCT, preemption-bounded systematic, free-running): values 0,1,2,... in order each once; without an unsubscribe exactly k values then completion once the workers ran until idle. Real-clock part (crate rtimer/, the library built with its DEFAULT features so that the built-in timer behind the `timer` feature - which the virtual-clock build never compiles - is the one under test; counters real_timer_cases, real_clock_lower_bounds_checked, real_clock_due_after_idle_cases): timer / timer_at / interval / interval_at / delay / delay_at / delay_subscription / debounce on LocalPool and on a 2-thread ThreadPool with waits from a grid of sub-millisecond and fractional-millisecond durations (0, 50, 100, 400, 499, 500, 501, 999 us, 1, 1.001, 1.4, 1.499, 1.5, 2.4, 2.499, 4.167 ms) plus seeded ones below 3 ms; oracles that machine load cannot falsify: an observation instant taken inside the callback is never earlier than (an instant taken before the call that starts the wait) + the wait; consecutive ticks are at least one period apart and numbered 0,1,2,3 (period 0 included); and, after the thread has slept past subscription + first wait of an interval / interval_at with the executor idle, one run_until_stalled() delivers the first tick (the first wait starts at subscription).",
     "assumptions": COMMON_ASSUME + [
         "the _at forms read the real Instant::now(): the instant is placed relative to the case's start and the real time the case took (plus 1 ms) is the tolerance on 'never earlier'; 'exactly' is only demanded of due-stepping runs on the virtual clock",
         "for an instant that has already passed ('at the given instant' cannot be met any more) the first interval_at value is due at once, i.e. at the executor's first run",
         "timer / timer_at are bounded from below only ('no earlier than the due time'): the exact upper bound is checked on due-stepping runs without an idle gap; after an idle gap a one-shot task's delay legitimately starts at the first poll",
     ],
-    "technique": "runtime monitoring: virtual-time stamps recorded by the probe for real interval/timer/from_* sources under an explorer-chosen timer/task order, checked against a timed reference model",
+    "technique": "runtime monitoring: virtual-time stamps recorded by the probe for real interval/timer/from_* sources under an explorer-chosen timer/task order, checked against a timed reference model; plus a real-clock monitor on the built-in timer (lower-bound, spacing and due-after-idle oracles on std::time::Instant stamps)",
     "level_text": "Exploration over sampled (source, schedule) pairs on a virtual clock; exact timing on due-stepping runs, lower bounds on all runs.",
     "level_note": "Trusted: the virtual clock behind NEW_TIMER_FN, the arena executor behind VerifScheduler, scripted futures/streams.",
     "design_ref": "DESIGN.md §5 C08",
-    "require": {"quick": {"sources_covered": 8, "runs_with_idle_gap_before_first_poll": 10000, "long_stream_runs": 2000, "thread_schedules": 2500, "free_parallel_runs": 700}, "thorough": {"sources_covered": 8, "runs_with_idle_gap_before_first_poll": 500000, "long_stream_runs": 100000, "thread_schedules": 100000, "free_parallel_runs": 50000}},
+    "require": {"quick": {"real_timer_cases": 200, "real_clock_lower_bounds_checked": 400, "real_clock_due_after_idle_cases": 8, "sources_covered": 8, "runs_with_idle_gap_before_first_poll": 10000, "long_stream_runs": 2000, "thread_schedules": 2500, "free_parallel_runs": 700}, "thorough": {"real_timer_cases": 4000, "real_clock_lower_bounds_checked": 8000, "real_clock_due_after_idle_cases": 90, "sources_covered": 8, "runs_with_idle_gap_before_first_poll": 500000, "long_stream_runs": 100000, "thread_schedules": 100000, "free_parallel_runs": 50000}},
 }
 
 META["C07"] = {
@@ -229,16 +283,16 @@ META["C16"] = {
 
 META["C19"] = {
     "title": "Scheduled tasks run at most once, never early, and stay cancelled",
-    "rule": "cases = (set of 1-4 tasks scheduled directly through the public Scheduler::schedule on the order-choosing executor: OnceTask, OnceTask returning a subscription (SubscribeReturn), FutureTask over a scripted future pending 0-2 polls, RepeatTask (new and new_immediate) with period 1|5 ms declining after 1-4 runs; delay in {none, 0, 0.4, 0.999, 1, 5} ms; for each handle a cancellation step (or none); local or thread-safe scheduler form; fifo|any task order; prompt|late schedule; seed). is_closed() of every handle is sampled before every step. Non-trivial: a cancellation fell while its task was still pending (scheduled, not finished); distinct = hash(case).",
+    "rule": "cases = (set of 1-4 tasks scheduled directly through the public Scheduler::schedule on the order-choosing executor: OnceTask, OnceTask returning a subscription (SubscribeReturn), FutureTask over a scripted future pending 0-2 polls, RepeatTask (new and new_immediate) with period 1|5 ms declining after 1-4 runs; delay in {none, 0, 0.4, 0.999, 1, 5} ms; for each handle a cancellation step (or none); local or thread-safe scheduler form; fifo|any task order; prompt|late schedule; seed). is_closed() of every handle is sampled before every step. Non-trivial: a cancellation fell while its task was still pending (scheduled, not finished); distinct = hash(case). Real-clock part (crate rtimer/, library built with its DEFAULT features, i.e. the built-in timer; counters real_timer_cases, real_clock_lower_bounds_checked, real_clock_cancellations_before_due, real_clock_far_future_delays): OnceTask with delays from a grid of sub-millisecond / fractional-millisecond durations plus seeded ones on LocalPool and a 2-thread ThreadPool: the body starts no earlier than (instant before schedule()) + delay and runs exactly once; a task cancelled before it is due has not run after the thread slept past the due time and the pool ran; RepeatTask::new / with_first_delay (periods from the same grid, 0 included): runs at least one period apart, sequence numbers 0..3 consecutive, no run beyond the declining one; delays of 1 h, 30 years, 2^32 ms, 2^32 s, 2^64/1000 s and Duration::MAX: the body has not run after a few milliseconds.",
     "assumptions": COMMON_ASSUME + [
         "bodies are harness fn pointers that log start/end stamps; 'never early' is judged on virtual time: a one-shot body not before schedule + delay, a repeating body not before its delay and later runs at least one period apart",
         "single-threaded here: 'the body is not still running when unsubscribe() returns' is checked by the baton scenarios (worker thread vs cancelling thread) reported under thread_* counters",
     ],
-    "technique": "runtime monitoring: stamped task bodies and handle samples on the real Scheduler/TaskHandle code, run order and timer order chosen by the explorer through the VerifScheduler hook, checked against a task model",
+    "technique": "runtime monitoring: stamped task bodies and handle samples on the real Scheduler/TaskHandle code, run order and timer order chosen by the explorer through the VerifScheduler hook, checked against a task model; plus a real-clock monitor on the built-in timer (not-early, exactly-once, stays-cancelled and spacing oracles on std::time::Instant stamps)",
     "level_text": "Exploration over sampled task sets, cancellation points and run orders.",
     "level_note": "Trusted: arena executor, virtual clock; the library's remote_handle/Remote::poll/TaskHandle run unchanged.",
     "design_ref": "DESIGN.md §5 C19",
-    "require": {"quick": {"cancellations_while_pending": 20000, "task_kinds_covered": 5, "thread_schedules": 4000}, "thorough": {"task_kinds_covered": 5}},
+    "require": {"quick": {"real_timer_cases": 150, "real_clock_lower_bounds_checked": 300, "real_clock_far_future_delays": 6, "cancellations_while_pending": 20000, "task_kinds_covered": 5, "thread_schedules": 4000}, "thorough": {"real_timer_cases": 1500, "real_clock_lower_bounds_checked": 3000, "real_clock_far_future_delays": 6, "task_kinds_covered": 5}},
 }
 
 META["C14"] = {
@@ -341,6 +395,8 @@ META["C12"] = {
     "require": {"quick": {"subject_types_covered": 2, "thread_schedules": 4000, "free_parallel_runs": 1500}, "thorough": {"subject_types_covered": 2, "thread_schedules": 300000, "free_parallel_runs": 100000}},
 }
 
+META["C08"]["extra"] = rtimer_extra("C08")
+META["C19"]["extra"] = rtimer_extra("C19")
 META["C10"]["extra"] = miri_extra("C10", 24, 32)
 META["C06"]["extra"] = miri_extra("C06", 6, 32)
 META["C12"]["extra"] = miri_extra("C12", 6, 32)
